@@ -8,7 +8,7 @@ ID = 'C05'
 LEVEL = 'exploration'
 BUDGET = {'quick': 150, 'thorough': 1800}
 CHUNK = 4
-RULE = ('Workload of C04 (references with several contigs, N, lower case, repeats; samples with SNPs, indels, ambiguity '
+RULE = ('Workload of C04 (references with several contigs, two per run of 80 kb and 300 kb, N, lower case, repeats; samples with SNPs, indels, ambiguity '
         'codes; all mask flags).  For each case `ska map -f aln` and `ska map -f vcf` are run on the same inputs and the VCF '
         'is checked against the real alignment: a record at (contig, 1-based position) exactly where some sample differs '
         'from the upper-case reference base, REF = reference base (N if not A/C/G/T), every genotype decodes through '
@@ -19,7 +19,7 @@ ASSUMPTIONS = ['the oracle is the real `ska map -f aln` output of the same run; 
                'contig names are c<i> ([A-Za-z0-9_.] only)']
 REQUIRED = {t: ['records_checked', 'multiallelic_records', 'records_on_later_contigs', 'ref_N_records',
                 'lowercase_ref_cases', 'missing_genotypes', 'N_genotypes', 'references_with_ambiguity_codes',
-                'vcf_written_over_existing_longer_file', 'vcf_threads_not_dividing_reference_length', 'records_in_last_columns_of_reference'] for t in ('quick', 'thorough')}
+                'vcf_written_over_existing_longer_file', 'vcf_threads_not_dividing_reference_length', 'records_in_last_columns_of_reference', 'references_over_262144_bases'] for t in ('quick', 'thorough')}
 
 
 def builds(tier):
@@ -207,6 +207,8 @@ def run_case(desc, ctx):
                         {'ref': ref, 'samples': st['samples'], 'alignment': gs, 'vcf': v.stdout[-3000:]})
             continue
         if variant == 'rel':
+            if total > 262144:
+                res.count('references_over_262144_bases')
             res.count('records_checked', nrec)
             res.count('positions_compared', sum(len(c) for c in ref))
             if any(ch.islower() for c in ref for ch in c):
